@@ -279,7 +279,8 @@ func genC13Cases(env *Env, r *Rand, n int) []Case {
 	// (f) directives and templates
 	for _, d := range []string{"[BITS 64]", "[BITS 8]", "[BITS]", "[FOO 1]", "[FORMAT \"ELF\"]", "[FORMAT WCOFF]", "[FORMAT \"WCOFF\"]\n[FORMAT \"BIN\"]", "[SECTION .data]", "[FILE]", "[FILE 5]", "[INSTRSET \"i486p\"]\n[INSTRSET 1]",
 		"[ABSOLUTE 0]", "[PADDING 1]", "[PADSET 1]", "[OPTIMIZE 1]", "[BITS 32", "BITS 32]", "[[BITS 32]]", "\tGLOBAL", "\tGLOBAL 5", "\tGLOBAL a,,b", "\tEXTERN", "X EQU", "EQU 5", "X EQU Y", "X EQU X", "X EQU X+1\n\tDD X",
-		"A EQU B\nB EQU A\n\tDD A", "\tDB \"{{.deflabel}}\"", "\tMOV AX,{{.deflabel}}", "\tJMP {{", "\tDB \"{{\"", "\tDB \"}}{{\"", "{{.x}}:", "\tJMP {{.}}", "\tJMP {{template \"x\"}}", "\tJMP {{printf \"%d\" 5}}",
+		"A EQU B\nB EQU A\n\tDD A", "X EQU Y*2\nY EQU [X*2]\n\tMOV AX,Y", "X EQU Y+1\nY EQU 8:X\n\tJMP Y", "A EQU B\nB EQU C\nC EQU [A]\n\tMOV AX,C", "A EQU BYTE [B]\nB EQU A\n\tMOV A,1",
+		"P EQU Q*Q\nQ EQU (P)\n\tDD Q", "S EQU \"s\"\n\tDB S", "R EQU AX\n\tMOV R,1", "M EQU [BX]\n\tMOV AL,M", "F EQU 8:16\n\tJMP F", "N EQU $\n\tDW N", "N EQU $+N2\nN2 EQU 1\n\tDW N", "\tDB \"{{.deflabel}}\"", "\tMOV AX,{{.deflabel}}", "\tJMP {{", "\tDB \"{{\"", "\tDB \"}}{{\"", "{{.x}}:", "\tJMP {{.}}", "\tJMP {{template \"x\"}}", "\tJMP {{printf \"%d\" 5}}",
 		"\tORG", "\tORG AX", "\tORG 1,2", "\tRESB", "\tRESB AX", "\tRESB -1", "\tALIGNB 0", "\tALIGNB 3", "\tALIGNB -4", "\tALIGNB AX", "\tTIMES 3 DB 0", "\tDB", "\tDB ,", "\tDB 1,,2", "\tDW \"ab\"", "\tDD 'abcd'", "\tDB 'ab'", "\tDB ''",
 		"\tEND", "\tRESW 2", "\tRESD 2", "\tDQ 1", "\tDT 1", "\tALIGN 4", "\tINCO \"x\"", "label", "label: NOP", ":", "\t:", "a:b:", "1label:", "$:", ".:\n\tJMP .", "_:\n\tJMP _"} {
 		add("directive", wrap(d))
@@ -421,7 +422,17 @@ func init() {
 		for _, f := range []string{"long-operand-list", "long-sum", "long-program", "many-labels", "many-comments", "long-string", "many-equs", "blank-lines"} {
 			cases = append(cases, &CrashCase{Src: familySource(f, big), Family: "large-" + f})
 		}
-		// the known deep-nesting crash, under its own signature
+		// EQU chains whose stored expressions double at every level (symbolic term that is never combined)
+	for _, depth := range []int{8, 16, 32} {
+		var b strings.Builder
+		b.WriteString("A0\tEQU\tlab+1\n")
+		for i := 1; i <= depth; i++ {
+			fmt.Fprintf(&b, "A%d\tEQU\tA%d+A%d\n", i, i-1, i-1)
+		}
+		fmt.Fprintf(&b, "\tMOV EAX,A%d\nlab:\n", depth)
+		cases = append(cases, &CrashCase{Src: []byte(b.String()), Family: fmt.Sprintf("equ-doubling-chain-%d", depth)})
+	}
+	// the known deep-nesting crash, under its own signature
 		cases = append(cases, &CrashCase{Src: familySource("nested-parens", 100000), Family: "deep-nesting"})
 		rep.Rule = "hostile inputs: every mnemonic of the grammar's Opcode rule (read from the tree) with 0-4 operands of every operand kind (registers of every class, immediates, strings, sized/unsized memory, defined/undefined labels and EQUs, seg:off, templates, malformed brackets) in both modes; numbers beyond 64 bits and 2^32 multiples in every numeric position; unknown and malformed directives, EQU cycles, text/template syntax; random byte strings (raw, printable, Shift_JIS/UTF-8 looking); token soup; token- and line-level mutations of valid programs; " +
 			"size families to 10^5 tokens. Monitors: worker liveness (panic value, fatal error, signal), parser virtual time (pigeon expression count at doubling sizes: a ratio >= 16 on two successive doublings is a violation), per-request CPU-time watchdog. non-trivial = input ran to an outcome (output, parse error or diagnosed exit); distinct = (family, outcome class) cells"
